@@ -358,6 +358,7 @@ def _parked(ctx, **params):
 
 
 HARNESSES = {
+    "buffered-amount": Harness("buffered-amount", lambda ctx, **kw: __import__("harness.c13_channel", fromlist=["h_buffered"]).h_buffered(ctx, **kw), lambda tier: [{}], style="STEP", bounds="one _addBufferedAmount step from a symbolic amount / threshold, with an application handler that reads bufferedAmount and sends from inside bufferedamountlow: the accounting that must return to 0 at quiescence stays exact", encoded=["aiortc.rtcdatachannel:RTCDataChannel._addBufferedAmount"], twin="added", opts={"samples": 1}),
     "parked-flush": Harness("parked-flush", _parked, lambda tier: [{"q": 0, "parked": True}, {"q": 1, "parked": True}], style="STEP", bounds="a reliable channel's message parked in the channel queue while only a FORWARD-TSN (and 0..1 chunks) is outstanding; one SACK with symbolic cumulative point: at quiescence nothing may stay parked", encoded=["aiortc.rtcsctptransport:RTCSctpTransport._receive_sack_chunk", "aiortc.rtcsctptransport:RTCSctpTransport._data_channel_flush"], twin="sack-over-forward-tsn-processed", opts={"samples": 1}),
     "recv-delivery": Harness(
         "recv-delivery",
